@@ -471,7 +471,7 @@ def run(ctx):
     wr = [n for n in ast.walk(reg.node) if isinstance(n, ast.FunctionDef) and n.name == "wrapped"]
     tw = U(wr[0]) if wr else ""
     ctx.check("f(hist, ax=ax, **kwargs)" in tw and "f(h, ax=ax, **kwargs)" in tw and "for h in hist:" in tw and "return ax" in tw
-              and "(fig, ax) = _get_axes(kwargs, use_3d=use_3d, use_polar=use_polar)" in tw.replace("fig, ax = _get_axes", "(fig, ax) = _get_axes"),
+              and any(U(c.func) == "_get_axes" and U(kwarg(c, "use_3d")) == "use_3d" and U(kwarg(c, "use_polar")) == "use_polar" for c in calls_in(wr[0])),
               "C20.f", "matplotlib.register:wrapped", "the wrapper draws the histogram (every member of a collection) on the axes it created and returns them",
               "the registered wrapper no longer calls the plot function for the histogram / each member with ax and kwargs", reg.where)
     gcd_ = mp.functions["_get_cmap_data"]
